@@ -66,6 +66,10 @@ pub struct LocalPt {
     /// fraction of the property's step cap
     pub c: f64,
     pub u0_scale: f64,
+    /// Some((q, j)): minimum step = q x maximum step and the interval is (4 + j/8 + 0.001) maximum steps long, so
+    /// that what is left before the end falls below, at and above the minimum step (default: 1e-7, 2/L)
+    #[serde(default)]
+    pub end_sweep: Option<(f64, usize)>,
 }
 pub struct Local;
 impl Check for Local {
@@ -87,8 +91,16 @@ impl Check for Local {
                 for &tol in &t.pick(vec![1e-3, 1e-5, 1e-7, 1e-9], vec![1e-3, 1e-4, 1e-5, 1e-6, 1e-7, 1e-8, 1e-9, 1e-10]) {
                     for &c in &t.pick(vec![1.0, 0.25], vec![1.0, 0.5, 0.25]) {
                         for &u0_scale in &t.pick(vec![1.0], vec![1.0, 0.6]) {
-                            v.push(LocalPt { solver, problem: p.to_string(), tol, c, u0_scale });
+                            v.push(LocalPt { solver, problem: p.to_string(), tol, c, u0_scale, end_sweep: None });
                         }
+                    }
+                }
+            }
+            // large minimum step x end times swept across one maximum step (the clipped final step and its neighbours)
+            for p in ["lin+1", "osc1", "rot2:cost+relax"] {
+                for &q in &[0.5, 0.25] {
+                    for j in 0..8 {
+                        v.push(LocalPt { solver, problem: p.to_string(), tol: 1e-5, c: 1.0, u0_scale: 1.0, end_sweep: Some((q, j)) });
                     }
                 }
             }
@@ -97,7 +109,7 @@ impl Check for Local {
             for p in LARGE {
                 for &tol in &t.pick(vec![1e-4, 1e-7], vec![1e-3, 1e-5, 1e-7, 1e-9]) {
                     for &u0_scale in &t.pick(vec![60.0], vec![60.0, 2000.0]) {
-                        v.push(LocalPt { solver, problem: p.to_string(), tol, c: 1.0, u0_scale });
+                        v.push(LocalPt { solver, problem: p.to_string(), tol, c: 1.0, u0_scale, end_sweep: None });
                     }
                 }
             }
@@ -119,7 +131,10 @@ impl Check for Local {
         // amplitude of the exact solution over the interval (sampled closed form)
         let amp = (0..=64).map(|i| ninf(&prob.flow(t0, &prob.y0(), t0 + (t1 - t0) * i as f64 / 64.0))).fold(0.0, f64::max);
         let dtmax = (p.c * step_cap(p.solver, p.tol, l)).min(unseen_cap(p.solver, p.tol, l, amp));
-        let cfg = Cfg { tol: p.tol, dtmin: 1e-7 * dtmax, dtmax, t0, t1 };
+        let cfg = match p.end_sweep {
+            None => Cfg { tol: p.tol, dtmin: 1e-7 * dtmax, dtmax, t0, t1 },
+            Some((q, j)) => Cfg { tol: p.tol, dtmin: q * dtmax, dtmax, t0, t1: t0 + dtmax * (4.0 + j as f64 / 8.0 + 1e-3) },
+        };
         let out = run_real(p.solver, &prob, &cfg, DimMode::Static, 40_000_000);
         let subj = subject(p.solver);
         if let Some(m) = &out.panic {
